@@ -348,13 +348,23 @@ func (w *w3) stepInvariant() error {
 	// V1: among brokers whose session lease is still alive on the server, at most one believes it owns a resource
 	type claim struct{ node string }
 	claims := map[string][]string{}
+	ghosts := map[string][]string{}
 	for _, n := range w.nodes {
 		if !n.up || n.plm == nil {
 			continue
 		}
 		for _, lm := range []*LeaseManager{n.plm.lm, n.glm.lm} {
 			sess := lm.session
-			if sess == nil || !w.etcd.LeaseAlive(int64(sess.Lease())) {
+			if sess == nil {
+				// the manager has itself let go of its session (shutdown, or it noticed the session's end): it has
+				// no excuse of "could not know yet" for anything it still lists as owned
+				for r := range lm.owned {
+					k := lm.prefix + "/" + r
+					ghosts[k] = append(ghosts[k], n.name)
+				}
+				continue
+			}
+			if !w.etcd.LeaseAlive(int64(sess.Lease())) {
 				continue
 			}
 			for r := range lm.owned {
@@ -367,6 +377,9 @@ func (w *w3) stepInvariant() error {
 		if len(who) > 1 {
 			sort.Strings(who)
 			return &simrt.Violation{Property: "C18", Clause: "two-live-owners", Detail: fmt.Sprintf("%s: %v all believe they own it and all their session leases are alive on the server", k, who)}
+		}
+		if g := ghosts[k]; len(g) > 0 && len(who) > 0 && g[0] != who[0] {
+			return &simrt.Violation{Property: "C18", Clause: "owner-without-session", Detail: fmt.Sprintf("%s: %v owns it with a live session lease while %v, which has given up its own session, still believes it owns it", k, who, g)}
 		}
 	}
 	return nil
@@ -674,6 +687,16 @@ func w3Gen(r *rand.Rand, prop, tier string) *simrt.Case {
 			}
 			for i := 0; i < 8; i++ {
 				c.Program = append(c.Program, simrt.Op{Actor: 1, Kind: "sleep", A: ttl/4 + int64(r.IntN(300))}, simrt.Op{Actor: 1, Kind: "acquire-p", A: p, B: q})
+			}
+		}
+		if r.IntN(6) == 0 {
+			// a broker shuts down (gives all its leases back) while another one is waiting for one of them; the
+			// goroutine doing the shutdown gets its locks late
+			p, q := int64(r.IntN(2)), int64(r.IntN(2))
+			c.Faults = append(c.Faults, simrt.Fault{Kind: "sched.stall", Op: "sched.lock", Key: "ReleaseAll", Nth: r.IntN(4), Count: 1 + r.IntN(2), Arg: int64(50+r.IntN(3000)) * 1e6})
+			c.Program = append(c.Program, simrt.Op{Actor: 0, Kind: "acquire-p", A: p, B: q}, simrt.Op{Actor: 0, Kind: "sleep", A: int64(200 + r.IntN(800))}, simrt.Op{Actor: 0, Kind: "release-all"}, simrt.Op{Actor: 0, Kind: "sleep", A: 4000})
+			for i := 0; i < 40; i++ {
+				c.Program = append(c.Program, simrt.Op{Actor: 1, Kind: "sleep", A: int64(20 + r.IntN(100))}, simrt.Op{Actor: 1, Kind: "acquire-p", A: p, B: q})
 			}
 		}
 		faults("etcd.unavail", "etcd.timeout_applied", "etcd.drop_keepalive.unavail", "etcd.partition.unavail", "etcd.slow")
